@@ -27,7 +27,7 @@ def reformat_text(
         # Plaintext mode
         result = fill_text(
             text,
-            text_wrap=Wrap.WRAP,
+            text_wrap=Wrap.WRAP_FULL,
             width=width,
             word_splitter=get_html_md_word_splitter(),
         )
